@@ -1,5 +1,6 @@
 import TaskModel.Remote.Lemmas
 import TaskModel.Remote.Chain
+import TaskModel.Remote.TreeLemmas
 import TaskModel.Remote.Tie
 /-!
 # C20 — Remote Taskfiles: nothing unapproved runs, and the cache keeps tasks runnable
@@ -1620,5 +1621,127 @@ example : baseOf url7 ⟨some 71, some 71, some 0, none⟩ = url7 := by decide
 -- a default name that stalls past `--timeout`: 108, as for a file URL (fix R8-6)
 example : (runChain id incDir RState.init
     [⟨⟨0, url7, yesFlags, .dir ⟨10, false⟩ (.slow 71), .noTerminal⟩, hopServe 2⟩]).1 = [.error 108] := by decide
+
+/-! # Trees: sibling includes and chains of any depth
+
+`TaskModel.Remote.Tree`: `invokeTree sha inc s st` reads the root, every remote Taskfile its content
+includes (`inc c b : List Url` — siblings, read concurrently by the code, each with its own cache entry,
+server behaviour and prompt answer `st.world`), every remote Taskfile those include, and so on; every
+node by the same `readRemote`.  The layered approach carries: the per-node lemmas lift by one
+induction over the depth (`readTree_good`).  Limit: a Taskfile reachable along two paths is read
+once by the code and once per path by the model — the theorems below are for invocations that look at
+no URL twice (`Nodup` of the URLs read), which is what the harness generates. -/
+
+theorem invokeTree_run (sha inc s st t) (h : (invokeTree sha inc s st).1 = .run t) :
+    gateT st = none ∧ st.flags.clearCache = false ∧ (readOf false sha inc s st).errs = [] ∧
+    t = (readOf false sha inc s st).trace ∧ (invokeTree sha inc s st).2 = (readOf false sha inc s st).state := by
+  cases hg : gateT st with
+  | some code => simp [invokeTree, invokeTreeWith, hg] at h
+  | none =>
+    cases he : (readOf false sha inc s st).errs with
+    | cons e es => simp [invokeTree, invokeTreeWith, hg, he] at h
+    | nil =>
+      cases hc : st.flags.clearCache with
+      | true => simp [invokeTree, invokeTreeWith, hg, he, hc] at h
+      | false =>
+        simp only [invokeTree, invokeTreeWith, hg, he, hc, Bool.false_eq_true, if_false] at h ⊢
+        cases h
+        simp
+
+/-- **C20_tree_trust**: an invocation that read a tree of remote Taskfiles (no URL twice) and executed
+it: **every** node that ran — the root, each of several sibling includes, a node at any depth — has the
+checksum that is now the stored one for *its* URL, its cached copy is what ran, and that checksum
+was stored before the invocation or a prompt for exactly it was due and passed with the answer given
+for *that* URL (or `--yes`).  In every state, for every `inc`, `sha`, flags, servers and answers. -/
+theorem C20_tree_trust (sha : Content → Sum) (inc : Content → Url → List Url) (s : RState) (st : TStep)
+    (t : List (Nat × Content)) (hrun : (invokeTree sha inc s st).1 = .run t)
+    (htree : (readOf false sha inc s st).touched.Nodup) :
+    ∀ v c, (v, c) ∈ t → NodeOk sha st.flags st.world s (invokeTree sha inc s st).2 v c := by
+  obtain ⟨_, _, _, ht, hs⟩ := invokeTree_run sha inc s st t hrun
+  intro v c hm
+  rw [ht] at hm
+  rw [hs]
+  have := (readTree_good false sha inc st.flags (s.now + st.dt) st.world treeFuel [] false).trust
+    st.url (s.tick st.dt) htree v c hm
+  exact this
+
+/-- cache entries of URLs the load did not look at are as before (unless the whole cache is cleared) -/
+theorem C20_tree_frame (sha : Content → Sum) (inc : Content → Url → List Url) (s : RState) (st : TStep)
+    (v : Nat) (hv : v ∉ (readOf false sha inc s st).touched) (hc : (invokeTree sha inc s st).1 ≠ .cleared) :
+    (invokeTree sha inc s st).2.ent v = s.ent v := by
+  have hfr : (readOf false sha inc s st).state.ent v = s.ent v :=
+    (readTree_good false sha inc st.flags (s.now + st.dt) st.world treeFuel [] false).frame
+      st.url (s.tick st.dt) v hv
+  cases hg : gateT st with
+  | some code => simp [invokeTree, invokeTreeWith, hg]
+  | none =>
+    cases he : (readOf false sha inc s st).errs with
+    | cons e es => simp only [invokeTree, invokeTreeWith, hg, he]; exact hfr
+    | nil =>
+      cases hcl : st.flags.clearCache with
+      | true => simp [invokeTree, invokeTreeWith, hg, he, hcl] at hc
+      | false => simp only [invokeTree, invokeTreeWith, hg, he, hcl, Bool.false_eq_true, if_false]; exact hfr
+
+/-- all or nothing: a load in which any node fails — one sibling out of several, a node three levels
+down — executes nothing, whichever of the failing nodes' errors is reported -/
+theorem C20_tree_error_runs_nothing (sha : Content → Sum) (inc : Content → Url → List Url) (s : RState)
+    (st : TStep) (h : (invokeTree sha inc s st).1.exit ≠ 0) : (invokeTree sha inc s st).1.trace = [] := by
+  cases hr : (invokeTree sha inc s st).1 with
+  | run t => rw [hr] at h; exact absurd rfl h
+  | cleared => rfl
+  | error code => rfl
+
+/-- the same for one node and for chains: a non-zero exit status means nothing was executed -/
+theorem C20_error_runs_nothing (r : RResult) (h : r.exit ≠ 0) : r.trace = [] := by
+  cases r with
+  | run c => exact absurd rfl h
+  | cleared => rfl
+  | error code => rfl
+
+theorem C20_chain_error_runs_nothing (r : CResult) (h : r.exit ≠ 0) : r.trace = [] := by
+  cases r with
+  | run c1 c2 => exact absurd rfl h
+  | cleared => rfl
+  | error code => rfl
+
+/-! ### Non-vacuity: siblings and a chain of three -/
+
+/-- content 91 (URL 0) includes URL 1 and URL 3; content 41 (URL 0) includes URL 1; content 62 (URL 1)
+includes URL 3 -/
+private def incT : Content → Url → List Url := fun c _ =>
+  if c = 91 then [⟨1, false⟩, ⟨3, false⟩] else if c = 41 then [⟨1, false⟩] else if c = 62 then [⟨3, false⟩] else []
+private def wServe (a b c : Content) : List (Nat × Hop) :=
+  [(0, ⟨.serve a, .noTerminal⟩), (1, ⟨.serve b, .noTerminal⟩), (3, ⟨.serve c, .noTerminal⟩)]
+private def tGet : TStep := ⟨0, url0, yesFlags, wServe 91 2 3, 0⟩
+/-- no `--yes`, no terminal: sibling C changed to 4, sibling B stalls past the timeout -/
+private def tChangedC : TStep :=
+  ⟨0, url0, noFlags, [(0, ⟨.serve 91, .noTerminal⟩), (1, ⟨.slow 2, .noTerminal⟩), (3, ⟨.serve 4, .noTerminal⟩)], 104⟩
+private def tOffline : TStep := ⟨0, url0, { noFlags with offline := true }, wServe 91 7 8, 0⟩
+private def t3Get : TStep := ⟨0, url0, yesFlags, wServe 41 62 3, 0⟩
+/-- A stalls past `--timeout`: B and C, two levels down, are read under the spent deadline -/
+private def t3StallA : TStep :=
+  ⟨0, url0, yesFlags, [(0, ⟨.slow 41, .noTerminal⟩), (1, ⟨.serve 63, .noTerminal⟩), (3, ⟨.serve 9, .noTerminal⟩)], 0⟩
+
+-- siblings: both are read and run; a changed sibling without approval: 104, nothing runs, and the other
+-- sibling's stalled fetch falls back to its copy all the same; offline runs the three copies
+example : ((invokeTree id incT RState.init tGet).1,
+    (invokeTree id incT (invokeTree id incT RState.init tGet).2 tChangedC).1,
+    (invokeTree id incT (invokeTree id incT RState.init tGet).2 tOffline).1)
+    = (.run [(0, 91), (1, 2), (3, 3)], .error 104, .run [(0, 91), (1, 2), (3, 3)]) := by decide
+-- a chain of three; with A stalling, all three come out of the cache although B's and C's servers
+-- would have served new versions
+example : ((invokeTree id incT RState.init t3Get).1,
+    (invokeTree id incT (invokeTree id incT RState.init t3Get).2 t3StallA).1)
+    = (.run [(0, 41), (1, 62), (3, 3)], .run [(0, 41), (1, 62), (3, 3)]) := by decide
+-- hypotheses of `C20_tree_trust` are met
+example : (readOf false id incT RState.init tGet).touched = [0, 1, 3] ∧
+    (readOf false id incT RState.init t3Get).touched = [0, 1, 3] := by decide
+-- two failing siblings: the error reported is the environment's choice among theirs
+example : (invokeTree id incT RState.init
+    ⟨0, url0, yesFlags, [(0, ⟨.serve 91, .noTerminal⟩), (1, ⟨.fail .notFound, .noTerminal⟩), (3, ⟨.fail .refused, .noTerminal⟩)], 103⟩).1
+    = .error 103 ∧
+    (invokeTree id incT RState.init
+    ⟨0, url0, yesFlags, [(0, ⟨.serve 91, .noTerminal⟩), (1, ⟨.fail .notFound, .noTerminal⟩), (3, ⟨.fail .refused, .noTerminal⟩)], 7⟩).1
+    = .error 100 := by decide
 
 end Props.C20
